@@ -582,7 +582,7 @@ class Ctx:
         d = self.driver()
         with ThreadPoolExecutor(max_workers=2) as ex:
             fi = ex.submit(run_sharded, h, cases, tag + "-impl-" + profile, self.work, timeout, None, getattr(self, "impl_stall", None))
-            fm = ex.submit(run_sharded, d, cases, tag + "-model", self.work, timeout)
+            fm = ex.submit(run_sharded, d, cases, tag + "-model", self.work, timeout, None, 1800)      # (the model always terminates: see run_model)
             (ri, ci), (rm, cm) = fi.result(), fm.result()
         if cm:
             raise InfraError(f"model driver crashed: {cm[0]}")
@@ -593,8 +593,10 @@ class Ctx:
         return run_sharded(self.harness(profile), cases, tag + "-impl-" + profile, self.work, timeout, None,
                            getattr(self, "impl_stall", None))
 
-    def run_model(self, cases, tag="m", timeout=3600):
-        rm, cm = run_sharded(self.driver(), cases, tag, self.work, timeout)
+    def run_model(self, cases, tag="m", timeout=3600, stall=1800):
+        # the model is extracted from total Coq functions: it always terminates, so a long silence is a long computation (the line
+        # editor's model is quadratic in the line length) or a loaded machine, not a hang - the watchdog waits accordingly
+        rm, cm = run_sharded(self.driver(), cases, tag, self.work, timeout, None, stall)
         if cm:
             raise InfraError(f"model driver crashed: {cm[0]}")
         return rm
